@@ -65,7 +65,9 @@ def check_layout(res, L, rng, tag, kmax, names_unique=True):
             # a default name `<prefix><i1><i2>..` spells the factors in the order of the product it names
             name_ = L.names[idx]
             if isinstance(name_, str) and 2 <= len(tup) <= 4:
-                for perm_ in itertools.permutations(tup):
+                spellings_ = [''.join(str(t_) for t_ in perm_) for perm_ in itertools.permutations(tup)]
+                # ids such as 1 and 11 spell 'e111' in two orders: such a name does not determine an order
+                for perm_ in (itertools.permutations(tup) if len(set(spellings_)) == len(spellings_) else ()):
                     for pre_ in ('e', name_[:1]):
                         if name_ == pre_ + ''.join(str(t_) for t_ in perm_):
                             pp_ = one
